@@ -190,12 +190,15 @@ def c03_once_only_if_needed(spec: dict, obs, ex: refmodel.Expect) -> list[Findin
     out: list[Finding] = []
     h = Hist(spec, obs, ex)
     aborted = obs.outcome == 'raise'
-    # executions
-    s_names = trace_S(obs)
+    # executions (raw records: including tasks that are not nodes of the spec, see dagrun.split_foreign)
+    s_names = [r[1] for r in getattr(obs, 'raw_trace', obs.trace) if r[0] == 'S']
     counts: dict[str, int] = {}
     for n in s_names:
         counts[n] = counts.get(n, 0) + 1
     for n, c in counts.items():
+        if n not in h.by_name:
+            out.append(Finding('C03:executed-outside-closure', f'{n} is not a task of the run at all (not a parameter of any requested task)'))
+            continue
         nid = h.nid(n)
         if c > 1:
             out.append(Finding('C03:executed-more-than-once', f'{n} executed {c} times'))
@@ -212,10 +215,13 @@ def c03_once_only_if_needed(spec: dict, obs, ex: refmodel.Expect) -> list[Findin
                 out.append(Finding('C03:needed-task-not-executed', f'{n} should have executed'))
     # submissions (loads are visible only here)
     subs: dict[str, list] = {}
-    for ev in obs.events:
+    for ev in getattr(obs, 'raw_events', obs.events):
         if ev[0] == 'submit':
             subs.setdefault(ev[1], []).append(ev[2])
     for n, flags in subs.items():
+        if n not in h.by_name:
+            out.append(Finding('C03:unneeded-task-submitted', f'{n} is not a task of the run at all'))
+            continue
         nid = h.nid(n)
         if len(flags) > 1:
             out.append(Finding('C03:submitted-more-than-once', f'{n} submitted {len(flags)} times'))
